@@ -293,6 +293,73 @@ def price_world(chk, rng, wi):
             else:
                 chk.sample(dict(info=info, got=brief(r)))
         subs.append((steps, judge))
+    # late declarations: a price whose target unit does not exist yet is
+    # refused; once that unit is declared the very same operation, with the
+    # same rate object, must succeed (nothing may remember the refusal)
+    late = 0
+    for (xt, cur, xu), sym in sorted(declared.items()):
+        if late >= 3:
+            break
+        for tgt in CURS:
+            if tgt == cur:
+                continue
+            # no unit of the price type carries (tgt, any unit of xt) yet
+            if any((xt, tgt, xu2) in declared for xu2 in XTYPES[xt]):
+                continue
+            late += 1
+            form = rng.choice(["mul", "rmul", "div"])
+            ra = F(rng.randint(1, 10 ** 6), 10 ** rng.randint(1, 4))
+            a, b = (tgt, cur) if form == "div" else (cur, tgt)
+            amount = rand_fraction(rng, small=True)
+            e = {"mul": OP("*", V("p"), V("x")),
+                 "rmul": OP("*", V("x"), V("p")),
+                 "div": OP("/", V("p"), V("x"))}[form]
+            steps = [{"id": "x", "k": "x",
+                      "e": ["c", XR, [U(a), ["i", 1], U(b), num(ra)]]},
+                     {"id": "p", "k": "p", "e": Q(num(amount), sym)},
+                     {"k": "before", "e": e},
+                     {"id": "nu", "k": "nu",
+                      "e": M(V(tnames[xt]), "derive_unit_from",
+                             U(tgt), U(xu))},
+                     {"k": "after", "e": e},
+                     {"k": "again", "e": e}]
+            declared[(xt, tgt, xu)] = None      # taken for later iterations
+
+            def judge_late(obs, steps=steps, sym=sym, form=form, tgt=tgt,
+                           xu=xu, amount=amount, tname=tnames[xt]):
+                if not obs or "after" not in obs:
+                    chk.inconclusive_because("late declaration not observed")
+                    return
+                xr, p = parse_rate(obs.get("x")), obs.get("p", {})
+                nu = obs.get("nu", {})
+                if xr is None or p.get("k") != "Q" or nu.get("k") != "U":
+                    chk.count("late declaration: operands not constructed")
+                    return
+                chk.case((wid, "late", sym, tgt, form))
+                chk.count("price|target unit declared after a refusal")
+                wit = dict(obs=obs, steps=steps, world=wid)
+                if not is_exc(obs.get("before"), "QuantityError"):
+                    chk.violation("no %s/%s unit declared: expected "
+                                  "QuantityError, got %s" %
+                                  (tgt, xu, brief(obs.get("before"))), wit,
+                                  "price-undeclared")
+                    return
+                factor = xr["um"] / xr["ta"] if form == "div" \
+                    else xr["ta"] / xr["um"]
+                want = val(p) * factor
+                for key in ("after", "again"):
+                    r = obs.get(key, {})
+                    if r.get("k") != "Q" or r["u"] != nu.get("sym") or \
+                            r["t"] != tname or val(r) != want:
+                        chk.violation(
+                            "%s %s %s rate, after %s was declared: got %s, "
+                            "expected %s %s" % (val(p), sym, form,
+                                                nu.get("sym"), brief(r),
+                                                want, nu.get("sym")), wit,
+                            "price-value")
+                        return
+            subs.append((steps, judge_late))
+            break
     return world_program(chk, plan, subs, wid, extra_pre=pre)
 
 
@@ -303,7 +370,8 @@ def run(chk, R, tier, seed):
               "price|undeclared target", "price|mismatching currency",
               "price|no-money", "price|order mul", "price|order rmul",
               "price|order div", "worlds", "rate object|inverted",
-              "rate object|product"):
+              "rate object|product",
+              "price|target unit declared after a refusal"):
         chk.require(c)
     for mode in RM.MODES:
         chk.require("mode|%s|tie" % mode)
